@@ -179,4 +179,59 @@ def HostFramed (d₁ d₂ : StepDesc) : Prop :=
   d₁.hostPrefix.length = d₂.hostPrefix.length ∧
   d₁.args.map (fun a => (sliceHost a).length) = d₂.args.map (fun a => (sliceHost a).length)
 
+/-- `if self.isFingerprinted() and self.getSandbox(): h.fingerprint(calculate(sandbox.coreStep))`:
+the only place where the sandbox enters a Variant-Id (`sb` = Variant-Id of the sandbox step, `enabled` =
+the package has a sandbox and sandboxes are enabled) -/
+def withSandbox (fingerprinted enabled : Bool) (sb : Bytes) (d : StepDesc) : StepDesc :=
+  { d with hostPrefix := if fingerprinted && enabled then sb else [] }
+
+/-! ### The step graph: `calculate` of the real code
+
+`CoreStep.__init__` computes `variantId = getDigest(lambda coreStep: coreStep.variantId)`: the digests of
+the referenced steps are looked up, not recomputed.  A graph is a function from step numbers to nodes whose
+references are step numbers; `ids` plays the role of the stored `variantId` attributes. -/
+
+structure NTool where
+  name : Str
+  ref : Nat
+  path : Str
+  libs : List Str
+  deriving DecidableEq, Repr
+
+structure Node where
+  script : Option Str
+  tools : List NTool
+  env : List (Str × Str)
+  /-- the valid arguments -/
+  args : List Nat
+  /-- the sandbox step; present iff the step is fingerprinted and runs in a sandbox -/
+  sandbox : Option Nat
+  deriving DecidableEq, Repr
+
+def Node.desc (ids : Nat → Bytes) (n : Node) : StepDesc :=
+  { script := n.script,
+    tools := n.tools.map fun t => ⟨t.name, ids t.ref, t.path, t.libs, false⟩,
+    env := n.env,
+    args := n.args.map ids,
+    hostPrefix := match n.sandbox with
+      | some r => ids r
+      | none => [] }
+
+/-- everything a node refers to -/
+def Node.refs (n : Node) : List Nat :=
+  n.args ++ n.tools.map (·.ref) ++ n.sandbox.toList
+
+/-- every stored id is the digest of its node under the stored ids of the referenced nodes -/
+def Consistent (H : Bytes → Bytes) (g : Nat → Node) (ids : Nat → Bytes) : Prop :=
+  ∀ i, ids i = variantId H ((g i).desc ids)
+
+/-- `j` is a valid argument or a tool provider of the node -/
+def DependsOn (n : Node) (j : Nat) : Prop :=
+  j ∈ n.args ∨ ∃ t ∈ n.tools, t.ref = j
+
+/-- `i` depends (transitively, through arguments and tools) on `j` -/
+inductive Reach (g : Nat → Node) (j : Nat) : Nat → Prop
+  | refl : Reach g j j
+  | step {k i : Nat} : Reach g j k → DependsOn (g i) k → Reach g j i
+
 end Digest
